@@ -465,12 +465,12 @@ func ledgerEpoch(c *Ctx, mode string, nBlocks int, epoch int) {
 			other = extraNames[rnd.Intn(len(extraNames))]
 		}
 		ok_ := l.key(other)
-		kinds := []string{"transfer", "transfer", "transfer", "overdraft", "vote", "vote", "register", "topup", "unregister", "box", "boxfail", "payer", "payer-unsigned", "wrongkey", "setsigners", "ms-ok", "ms-dup", "ms-mall", "ms-short", "ms-ownkey", "extrasig", "pricey", "zero", "tamper", "tamper-box", "tamper-box-multi", "payer-self-forged", "flag", "payer-other-kind", "setsigners-var", "ms-resign"}
+		kinds := []string{"transfer", "transfer", "transfer", "overdraft", "vote", "vote", "register", "topup", "unregister", "box", "boxfail", "payer", "payer-unsigned", "wrongkey", "setsigners", "ms-ok", "ms-dup", "ms-mall", "ms-short", "ms-ownkey", "extrasig", "pricey", "zero", "tamper", "tamper-box", "tamper-box-multi", "payer-self-forged", "flag", "payer-other-kind", "setsigners-var", "ms-resign", "ms-renonce"}
 		switch l.mode {
 		case "c11":
 			kinds = []string{"transfer", "transfer", "vote", "vote", "vote", "register", "topup", "unregister", "box", "payer", "flag", "payer-other-kind"}
 		case "c06":
-			kinds = []string{"transfer", "payer", "payer-unsigned", "wrongkey", "setsigners", "ms-ok", "ms-dup", "ms-mall", "ms-short", "ms-ownkey", "ms-ownkey", "extrasig", "tamper", "tamper-box", "tamper-box-multi", "tamper-box-multi", "payer-self-forged", "box", "setsigners-var", "setsigners-var", "payer-other-kind", "ms-resign", "ms-resign"}
+			kinds = []string{"transfer", "payer", "payer-unsigned", "wrongkey", "setsigners", "ms-ok", "ms-dup", "ms-mall", "ms-short", "ms-ownkey", "ms-ownkey", "extrasig", "tamper", "tamper-box", "tamper-box-multi", "tamper-box-multi", "payer-self-forged", "box", "setsigners-var", "setsigners-var", "payer-other-kind", "ms-resign", "ms-resign", "ms-renonce", "ms-renonce"}
 		}
 		k := kinds[rnd.Intn(len(kinds))]
 		switch k {
@@ -1187,7 +1187,7 @@ func ledgerEpoch(c *Ctx, mode string, nBlocks int, epoch int) {
 				keys []string
 			}{u, keys}
 			return lt
-		case "ms-ok", "ms-dup", "ms-mall", "ms-short", "ms-ownkey":
+		case "ms-ok", "ms-dup", "ms-mall", "ms-short", "ms-ownkey", "ms-renonce":
 			if len(msAccts) == 0 {
 				return mk(txTransfer(uk, keyAddr(ok_), lemo(1), TxOpt{Exp: exp(), Msg: u_("nm")}), "transfer", u)
 			}
@@ -1251,6 +1251,32 @@ func ledgerEpoch(c *Ctx, mode string, nBlocks int, epoch int) {
 						all = append(all, common.ToHex(s))
 					}
 					stx = txEdit(stx, func(m map[string]interface{}) { m["sigs"] = all })
+				}
+			case "ms-renonce":
+				// ONE registered signer (weight < 100 when there is one) signs the same hash again and again with DIFFERENT
+				// nonces: different bytes, each individually valid and canonical, all by the same signer — its weight counts once
+				if len(regs) > 0 {
+					sort.Slice(regs, func(i, j int) bool { return regs[i].Weight < regs[j].Weight })
+					r := regs[rnd.Intn(len(regs))]
+					if regs[0].Weight < 100 && r.Weight >= 100 {
+						r = regs[0]
+					}
+					if nm := nameOf(r.Address); nm != "" {
+						stx, _ = types.MakeSigner().SignTx(stx, l.key(nm))
+						signed = append(signed, nm)
+						h := types.MakeSigner().Hash(tx)
+						all := []string{common.ToHex(stx.Sigs()[0])}
+						reps := 100/int(r.Weight) + 1
+						for i := 1; i < reps && i < 101; i++ {
+							if sig := signWithNonce(h[:], l.key(nm), new(big.Int).SetUint64(rnd.Uint64()|1)); sig != nil {
+								all = append(all, common.ToHex(sig))
+							}
+						}
+						if len(all) > 1 {
+							c.Count("nontrivial:c06:one-signer-several-nonces")
+						}
+						stx = txEdit(stx, func(m map[string]interface{}) { m["sigs"] = all })
+					}
 				}
 			}
 			lt := mk(stx, k, signed...)
@@ -1534,7 +1560,7 @@ func ledgerEpoch(c *Ctx, mode string, nBlocks int, epoch int) {
 			if modelled && mode != "c11" && len(invalid) > 0 && rnd.Intn(3) == 0 {
 				for _, itx := range invalid {
 					lt := byHash[itx.Hash()]
-					if lt == nil || !(lt.tampered || map[string]bool{"wrongkey": true, "payer-unsigned": true, "ms-short": true, "ms-dup": true, "ms-mall": true, "payer-ms-short": true}[lt.class]) {
+					if lt == nil || !(lt.tampered || map[string]bool{"wrongkey": true, "payer-unsigned": true, "ms-short": true, "ms-dup": true, "ms-mall": true, "ms-renonce": true, "payer-ms-short": true}[lt.class]) {
 						continue
 					}
 					fb := CloneBlock(b)
